@@ -44,7 +44,7 @@ def run(ctx):
     for rd in range(2 if quick else 10):
         sess = markers.Session(h)
         keys = markers.Keys(sess.p)
-        regs, _ = c02.build_history(ctx, sess, 100 if quick else 250, 150 if quick else 600)
+        regs, _ = c02.build_history(ctx, sess, 100 if quick else 250, 150 if quick else 600, battery=(rd == 0))
         pairs = related_pairs(ctx, sess, regs, 400 if quick else 1500)
         cmds, meta = [], []
         for a, b in pairs:
